@@ -5,5 +5,5 @@ Extraction Language OCaml.
 Extraction "C10_model.ml"
   N.add N.mul N.div_eucl N.ltb N.leb N.eqb len
   send_request send_response send_trailers
-  server_recv_request client_recv_response server_recv_trailers client_recv_trailers limit_in_force own_at
+  server_recv_request client_recv_response server_recv_trailers client_recv_trailers limit_in_force own_at settings_seen_by
   rfc_decode_static section_size.
